@@ -391,7 +391,7 @@ func PutNamed(container []byte, signature interop.Signature,
 		key := append([]byte(nnsHasAliasKey), containerID...)
 		// container is being re-put under another name: release the previous one
 		if prev := storage.Get(ctx, key); prev != nil && prev.(string) != domain {
-			deleteNNSRecords(ctx, prev.(string))
+			releaseNNSName(ctx, prev.(string), containerID)
 		}
 		if needRegister {
 			res := contract.Call(nnsContractAddr, "register", contract.All,
@@ -467,6 +467,44 @@ func Delete(containerID []byte, signature interop.Signature, token []byte) {
 	removeContainer(ctx, containerID, ownerID)
 	runtime.Log("remove container")
 	runtime.Notify("DeleteSuccess", containerID)
+}
+
+// releaseNNSName removes the container's TXT record from the domain. Records of
+// other containers stay: an expired domain could have been given to another
+// container in the meantime.
+func releaseNNSName(ctx storage.Context, domain string, containerID []byte) {
+	defer func() {
+		if r := recover(); r != nil {
+			var msg = r.([]byte)
+			// Expired or deleted entries are OK.
+			if std.MemorySearch(msg, []byte("has expired")) == -1 &&
+				std.MemorySearch(msg, []byte("not found")) == -1 {
+				panic("unable to release NNS name: " + string(msg))
+			}
+		}
+	}()
+
+	nnsContractAddr := storage.Get(ctx, nnsContractKey).(interop.Hash160)
+	res := contract.Call(nnsContractAddr, "getRecords",
+		contract.ReadStates|contract.AllowCall, domain, recordtype.TXT).([]string)
+	own := std.Base58Encode(containerID)
+	found := false
+	for i := range res {
+		if res[i] == own {
+			found = true
+			break
+		}
+	}
+	if !found {
+		return
+	}
+	// NNS can only drop all records of a type: put the foreign ones back
+	contract.Call(nnsContractAddr, "deleteRecords", contract.All, domain, recordtype.TXT)
+	for i := range res {
+		if res[i] != own {
+			contract.Call(nnsContractAddr, "addRecord", contract.All, domain, recordtype.TXT, res[i])
+		}
+	}
 }
 
 func deleteNNSRecords(ctx storage.Context, domain string) {
